@@ -1,7 +1,7 @@
 (* Vec/RvSmallScope.v — bounded theorem closed by vm_compute: EVERY history up to length 5 over a fixed
-   alphabet of 11 operations (177 156 histories), for retention 1 and 2, that is disciplined and not in
-   the one remaining known class agrees with the reference vector after every step (results, contents
-   incl. deleted slots, length, stamp).  It covers the commit / rollback / rollback_before / re-import
+   alphabet of 11 operations (177 156 histories), for retention 1 and 2, that is disciplined — no class
+   is excluded any more, rollbacks of truncating commits included — agrees with the reference vector after
+   every step (results, contents incl. deleted slots, length, stamp).  It covers the commit / rollback / rollback_before / re-import
    interleavings for which the unbounded induction (R5/R6 of DESIGN.md B.1) is not closed. *)
 From Anydb Require Import Common.Base Vec.RvModel Vec.RvRollback Vec.RvSpec Vec.RvInst Vec.RvFindings.
 
@@ -9,10 +9,9 @@ Lemma small_c04_k1 : forallb (ok_hist 1) (all_hist alpha_c04 5) = true. Proof. v
 Lemma small_c04_k2 : forallb (ok_hist 2) (all_hist alpha_c04 5) = true. Proof. vm_compute. reflexivity. Qed.
 
 Theorem C04_small_scope k0 h :
-  (k0 = 1 \/ k0 = 2) -> In h (all_hist alpha_c04 5) -> disciplined k0 h = true ->
-  KnownClass_rollback_of_truncation k0 h = false -> agree k0 h = true.
+  (k0 = 1 \/ k0 = 2) -> In h (all_hist alpha_c04 5) -> disciplined k0 h = true -> agree k0 h = true.
 Proof.
-  intros [-> | ->] Hin D K.
-  - pose proof small_c04_k1 as H. rewrite forallb_forall in H. specialize (H h Hin). unfold ok_hist, known in H. now rewrite D, K in H.
-  - pose proof small_c04_k2 as H. rewrite forallb_forall in H. specialize (H h Hin). unfold ok_hist, known in H. now rewrite D, K in H.
+  intros [-> | ->] Hin D.
+  - pose proof small_c04_k1 as H. rewrite forallb_forall in H. specialize (H h Hin). unfold ok_hist in H. now rewrite D in H.
+  - pose proof small_c04_k2 as H. rewrite forallb_forall in H. specialize (H h Hin). unfold ok_hist in H. now rewrite D in H.
 Qed.
